@@ -81,6 +81,22 @@ def translate():
     return T.run()
 
 
+def new_table_words():
+    """words and characters that occur in the regenerated scheme tables and regular expressions but not in those of the
+    pinned tree (Gen/SchemeTables.lean against Gen.expected/SchemeTables.lean): what a changed table or pattern may
+    newly admit.  Used only to aim the search when a table changed."""
+    try:
+        new = (LEAN / "Univers" / "Gen" / "SchemeTables.lean").read_text()
+        old = (LEAN / "Univers" / "Gen.expected" / "SchemeTables.lean").read_text()
+    except OSError:
+        return []
+    if new == old:
+        return []
+    tok = lambda t: set(re.findall(r"[A-Za-z]{1,12}", t)) | set(re.findall(r"[^A-Za-z0-9\s\\]", t))   # noqa: E731
+    words = sorted(tok(new) - tok(old), key=lambda w: (len(w), w))
+    return [w for w in words if w not in ('"', "(", ")", ",", "[", "]")][:24]
+
+
 def function_status():
     """what the function translator said on this run (Gen/functions.json)"""
     try:
